@@ -23,7 +23,8 @@ CONSTANTS N0,        \* ring dimension of the specification (power of two)
           MaxLen,    \* program length at which the behaviour is printed
           Budget,    \* bound on the absolute value of every coefficient
           Ks,        \* normalisation bases 2^k offered
-          Simulate   \* TRUE: arguments are drawn at random (for -simulate); FALSE: all choices explored
+          Simulate,  \* TRUE: arguments are drawn at random (for -simulate); FALSE: all choices explored
+          Focus      \* groups of entry points offered: subset of {"coef", "norm", "dft", "big", "svp", "prod", "vmp", "load"}
 
 ZNames == {"Z0", "Z1", "Z2", "Z3"}       \* int64 limb vectors, capacity ZCap limbs
 GNames == {"G0", "G1"}                   \* big-coefficient vectors
@@ -232,23 +233,28 @@ VmpApply(fromDft) ==
                      as |-> as, pmat |-> "M0", nrows |-> MRows, ncols |-> MCols], ns, {res})
 
 -----------------------------------------------------------------------------
+F(g) == g \in Focus
+BigArith ==
+  \/ \E op \in {"rotate", "automorphism"} : Unary(op, "big", "big")
+  \/ Binary("add", "vec_znx_big_add", "big", "big", "big")
+  \/ Binary("add", "vec_znx_big_add_small", "big", "big", "znx")
+  \/ Binary("add", "vec_znx_big_add_small2", "big", "znx", "znx")
+  \/ Binary("sub", "vec_znx_big_sub", "big", "big", "big")
+  \/ Binary("sub", "vec_znx_big_sub_small_a", "big", "znx", "big")
+  \/ Binary("sub", "vec_znx_big_sub_small_b", "big", "big", "znx")
+  \/ Binary("sub", "vec_znx_big_sub_small2", "big", "znx", "znx")
 Next ==
   /\ Len(hist) < MaxLen
-  /\ \/ Zero \/ Load
-     \/ \E op \in {"copy", "negate", "rotate", "automorphism"} : Unary(op, "znx", "znx")
-     \/ Binary("add", "vec_znx_add", "znx", "znx", "znx") \/ Binary("sub", "vec_znx_sub", "znx", "znx", "znx")
-     \/ Normalize
-     \/ Dft \/ Idft(FALSE) \/ Idft(TRUE)
-     \/ (Fft /\ \/ \E op \in {"rotate", "automorphism"} : Unary(op, "big", "big")
-                \/ Binary("add", "vec_znx_big_add", "big", "big", "big")
-                \/ Binary("add", "vec_znx_big_add_small", "big", "big", "znx")
-                \/ Binary("add", "vec_znx_big_add_small2", "big", "znx", "znx")
-                \/ Binary("sub", "vec_znx_big_sub", "big", "big", "big")
-                \/ Binary("sub", "vec_znx_big_sub_small_a", "big", "znx", "big")
-                \/ Binary("sub", "vec_znx_big_sub_small_b", "big", "big", "znx")
-                \/ Binary("sub", "vec_znx_big_sub_small2", "big", "znx", "znx")
-                \/ RangeNormalize \/ IdftInPlace \/ SvpPrepare \/ SvpApply \/ SmallProduct
-                \/ VmpPrepare \/ VmpApply(TRUE) \/ VmpApply(FALSE))
+  /\ \/ (F("coef") /\ (Zero \/ (\E op \in {"copy", "negate", "rotate", "automorphism"} : Unary(op, "znx", "znx"))
+                      \/ Binary("add", "vec_znx_add", "znx", "znx", "znx") \/ Binary("sub", "vec_znx_sub", "znx", "znx", "znx")))
+     \/ (F("load") /\ Load)
+     \/ (F("norm") /\ (Normalize \/ RangeNormalize))
+     \/ (F("dft") /\ (Dft \/ Idft(FALSE) \/ Idft(TRUE) \/ IdftInPlace))
+     \/ (F("big") /\ Fft /\ BigArith)
+     \/ (F("svp") /\ (SvpPrepare \/ SvpApply))
+     \/ (F("prod") /\ SmallProduct)
+     \/ (F("vmp") /\ (VmpPrepare \/ VmpApply(TRUE) \/ VmpApply(FALSE)))
+
 Spec == Init /\ [][Next]_vars
 
 -----------------------------------------------------------------------------
